@@ -532,6 +532,52 @@ def run_io(c):
     return Info(nt, classes(c, w, ["io=" + c["kind"], "stride=%d" % stride]))
 
 
+
+@st.composite
+def io_bad_case(draw, **kw):
+    c = draw(world_case(**kw))
+    c["stride"] = draw(st.integers(1, 2))
+    c["dtype"] = draw(st.sampled_from(["float64", "float32"]))
+    c["odd_file"] = draw(st.integers(0, len(c["lengths"]) - 1))
+    c["odd_kind"] = draw(st.sampled_from(["dtype", "width"]))
+    return c
+
+
+def run_io_inconsistent(c):
+    """A file list with one stray file (other element type or other number of features) cannot be loaded as one array:
+    the serial definition refuses it, so every rank has to refuse it - whichever rank happens to own the stray file."""
+    if len(c["lengths"]) < 2:
+        raise Skip()
+    X, trajs = make_data(c)
+    size = c["size"]
+    trajs = [(t * 100).astype(c["dtype"]) for t in trajs]
+    k = c["odd_file"]
+    if c["odd_kind"] == "dtype":
+        trajs[k] = trajs[k].astype("float32" if c["dtype"] == "float64" else "float64")
+    else:
+        trajs[k] = np.concatenate([trajs[k], trajs[k][:, :1]], axis=1)
+    d = tempfile.mkdtemp(prefix="c14iob")
+    try:
+        files = []
+        for i, t in enumerate(trajs):
+            f = os.path.join(d, "run_%03d.npy" % i)
+            np.save(f, t)
+            files.append(f)
+
+        def fn(rank):
+            try:
+                gl, loc = mio.load_npy_as_striped(files, stride=c["stride"])
+            except Exception as e:      # noqa - any refusal counts
+                return ("refused", type(e).__name__)
+            return ("returned", str(np.asarray(loc).dtype), tuple(np.asarray(loc).shape))
+        res, w = run(c, fn)
+    finally:
+        shutil.rmtree(d, ignore_errors=True)
+    outcomes = [r[0] for r in res]
+    require(all(o == "refused" for o in outcomes), "an inconsistent file list (one stray %s) was not refused on every rank"
+            % c["odd_kind"], outcomes=res, odd_file=k, owner_rank=k % size, world=size)
+    return Info(size >= 2, classes(c, w, ["io_bad=" + c["odd_kind"], "odd_owner_has_one_file=%s" % (len(trajs[k % size::size]) == 1)]))
+
 # ---------------------------------------------------------------------------
 # F. cold-started distributed k-medoids (the cluster app's KMedoids path under MPI without restart files)
 
@@ -579,6 +625,7 @@ CLAUSES = [
     Clause("striped_ops", ops_case(), run_ops, quick=200, thorough=4000),
     Clause("randind", ops_case(), run_randind, quick=80, thorough=1500),
     Clause("striped_io", io_case(), run_io, quick=80, thorough=1500),
+    Clause("striped_io_inconsistent", io_bad_case(), run_io_inconsistent, quick=60, thorough=1000),
     Clause("cold_kmedoids", hybrid_case(), run_cold_kmedoids, quick=40, thorough=400),
     Clause("kcenters_big_world", kcenters_case(max_size=9, max_traj=14), run_kcenters, quick=0, thorough=1500),
 ]
